@@ -351,6 +351,10 @@ func (m *overlappingFieldsCanBeMergedManager) collectConflictsBetweenFragments(c
 func (m *overlappingFieldsCanBeMergedManager) findConflictsBetweenSubSelectionSets(areMutuallyExclusive bool, selectionSetA ast.SelectionSet, selectionSetB ast.SelectionSet) *conflictMessageContainer {
 	var conflicts conflictMessageContainer
 
+	// comparedFragments belongs to the selection set the caller is examining: it is
+	// replaced below, so hand it back once the sub selection sets have been compared.
+	defer func(saved map[string]bool) { m.comparedFragments = saved }(m.comparedFragments)
+
 	fieldsMapA, fragmentSpreadsA := getFieldsAndFragmentNames(selectionSetA)
 	fieldsMapB, fragmentSpreadsB := getFieldsAndFragmentNames(selectionSetB)
 
